@@ -57,6 +57,9 @@ def plan(tier, seed):
         for first in range(len(NANV)):
             for kind in ("metric", "obs"):
                 items.append(dict(L=L, first_index=first, kind=kind, vals="nan", pmax=2, fit=(L == 2)))
+    for first in (0.0, 1.0, 1.04, 2.0):
+        for kind in ("metric", "obs"):
+            items.append(dict(layer="reuse", first=first, kind=kind))
     items.append(dict(layer="constructor"))
     for cs in tlc_sets(tier):
         items.append(dict(layer="tlc", **cs))
@@ -154,13 +157,13 @@ def ref_stop_epoch(means, variances, P_eval, P_stop, patience, crit, tol, epochs
     return None, None
 
 
-def scripted_observable(means, sds):
+def scripted_observable(means, sds, name="Q"):
     O = lib().observables
 
     class Scripted(O.ObservableBase):
         def __init__(self):
-            self.name = "Q"
-            self.symbol = "Q"
+            self.name = name
+            self.symbol = name
             self.calls = 0
 
         def apply(self, nn, samples):
@@ -193,14 +196,20 @@ def run_impl(seq, sds, P_eval, P_stop, patience, crit, tol, epochs, kind, throug
 
         ev = CB.MetricEvaluator(P_eval, {"Q": metric})
     else:
-        ev = CB.ObservableEvaluator(P_eval, [scripted_observable(seq, sds)], num_samples=2, num_chains=2, burn_in=0, steps=0)
+        # a second tracked observable R with a very different spread (must never influence decisions about Q)
+        other = scripted_observable([7.0 - 0.5 * i for i in range(len(seq))], [5.0 + 3.0 * i for i in range(len(seq))], name="R")
+        ev = CB.ObservableEvaluator(P_eval, [scripted_observable(seq, sds), other], num_samples=2, num_chains=2, burn_in=0, steps=0)
     if stopper == "EarlyStopping":
         es = CB.EarlyStopping(P_stop, tol, patience, ev, "Q", criterion=crit)
     else:
         import warnings
         with warnings.catch_warnings():
             warnings.simplefilter("ignore")
-            es = CB.VarianceBasedEarlyStopping(P_stop, tol, patience, ev, "Q")
+            if ":" in stopper:
+                vn = stopper.split(":", 1)[1]
+                es = CB.VarianceBasedEarlyStopping(P_stop, tol, patience, ev, "Q", variance_name=None if vn == "None" else vn)
+            else:
+                es = CB.VarianceBasedEarlyStopping(P_stop, tol, patience, ev, "Q")
     eps = []
     try:
         if through_fit:
@@ -260,7 +269,7 @@ def check(acc, seq, patience, Pe, Ps, crit, tol, kind, through_fit, flagged, sto
             kindsig = "did-not-stop-when-the-rule-is-met"
         else:
             kindsig = "last_epoch-differs-from-stop-epoch"
-        sig = f"earlystop:{kindsig}:{stopper}"
+        sig = f"earlystop:{kindsig}:{stopper.replace(':', '-variance_name-')}"
         if sig not in flagged:
             flagged.add(sig)
             acc.viol(sig, case, observed=dict(stopped_at=got, last_epoch=last), expected=dict(stop_epoch=want))
@@ -269,6 +278,85 @@ def check(acc, seq, patience, Pe, Ps, crit, tol, kind, through_fit, flagged, sto
         return
     acc.traces += 1
     acc.outcome(sha([want, patience, Pe, Ps, crit]))
+
+
+def run_reuse(acc, first, kind):
+    """non-initial state: ONE evaluator and ONE stopper serve two consecutive runs with clear_history()
+    (and a reset of the stop flag) in between; the second run must be decided on its own values only"""
+    CB = lib().callbacks
+    Vr = [0.0, 1.0, 1.04, 2.0]
+    flagged = set()
+    for la in (2, 3):
+        for restA in itertools.product(Vr, repeat=la - 1):
+            A = (first,) + restA
+            for lb in (2, 3):
+                for B in itertools.product(Vr, repeat=lb):
+                    for patience in (1, 2):
+                        for crit in ("absolute", "relative") + (("variance",) if kind == "obs" else ()):
+                            for tol in (0.05, 1.5):
+                                acc.ev(1, nontrivial=True)
+                                st = state()
+                                st.stop_training = False
+                                cur = dict(seq=list(A), i=0)
+                                sds = [0.5 + 0.25 * i for i in range(4)]
+                                if kind == "metric":
+                                    def metric(s_, **kw):
+                                        cur["i"] += 1
+                                        return cur["seq"][cur["i"] - 1]
+                                    ev = CB.MetricEvaluator(1, {"Q": metric})
+                                else:
+                                    O = lib().observables
+
+                                    class Sc(O.ObservableBase):
+                                        def __init__(self):
+                                            self.name = "Q"
+                                            self.symbol = "Q"
+
+                                        def apply(self, nn, samples):
+                                            cur["i"] += 1
+                                            m, sd = cur["seq"][cur["i"] - 1], sds[cur["i"] - 1]
+                                            return torch.tensor([m - sd, m + sd], dtype=torch.double)
+                                    ev = CB.ObservableEvaluator(1, [Sc()], num_samples=2, num_chains=2, burn_in=0, steps=0)
+                                es = CB.EarlyStopping(1, tol, patience, ev, "Q", criterion=crit)
+                                got = []
+                                try:
+                                    for seq in (A, B):
+                                        cur["seq"], cur["i"] = list(seq), 0
+                                        stop_at = None
+                                        for e in range(1, len(seq) + 1):
+                                            ev.on_epoch_end(st, e)
+                                            es.on_epoch_end(st, e)
+                                            acc.transitions += 1
+                                            if st.stop_training:
+                                                stop_at = e
+                                                break
+                                        got.append(stop_at)
+                                        st.stop_training = False
+                                        ev.clear_history()
+                                except ZeroDivisionError:
+                                    st.stop_training = False
+                                    acc.count("tolerated_zero_division")
+                                    continue
+                                want = []
+                                unspecified = False
+                                for seq in (A, B):
+                                    w, fl = ref_stop_epoch(list(seq), [2 * x * x for x in sds], 1, 1, patience, crit, tol, len(seq))
+                                    unspecified = unspecified or fl == "unspecified"
+                                    want.append(w)
+                                if unspecified:
+                                    continue
+                                if got != want:
+                                    sig = "earlystop:second-run-after-clear_history-decided-wrongly" if got[0] == want[0] else "earlystop:first-run-decided-wrongly"
+                                    if sig not in flagged:
+                                        flagged.add(sig)
+                                        acc.viol(sig, dict(layer="reuse", A=list(A), B=list(B), patience=patience, criterion=crit, tolerance=tol, kind=kind), observed=got, expected=want)
+                                    else:
+                                        acc.n_violations += 1
+                                else:
+                                    acc.traces += 1
+                                acc.outcome(sha([want, patience, crit]))
+    acc.states = acc.evaluations
+    acc.sample(dict(layer="reuse", A=[first, 1.0], B=[1.0, 1.04], patience=1, criterion="absolute", tolerance=0.05, kind=kind), cap=1)
 
 
 def run_constructor(acc):
@@ -319,6 +407,9 @@ def run_item(item):
         with contextlib.redirect_stdout(io.StringIO()):
             run_tlc_item(acc, item)
         return acc
+    if item.get("layer") == "reuse":
+        run_reuse(acc, item["first"], item["kind"])
+        return acc
     L, kind, vals = item["L"], item["kind"], item["vals"]
     flagged = set()
     if vals == "nan":
@@ -339,6 +430,9 @@ def run_item(item):
                                 check(acc, seq, patience, Pe, Ps, crit, tol, kind, True, flagged)
                             if crit == "variance" and Pe == 1:
                                 check(acc, seq, patience, Pe, Ps, crit, tol, kind, False, flagged, stopper="VarianceBasedEarlyStopping")
+                                if Ps == 1:
+                                    for vn in ("None", "Q", "R", "Q_variance"):
+                                        check(acc, seq, patience, Pe, Ps, crit, tol, kind, False, flagged, stopper="VarianceBasedEarlyStopping:" + vn)
     acc.states = acc.evaluations
     acc.sample(dict(seq=[("nan" if x != x else x) for x in (list(fixed) + [vals[0]] * (L - len(fixed)))], patience=1, P_eval=1, P_stop=1, criterion="absolute", tolerance=0.05, kind=kind), cap=1)
     return acc
@@ -346,6 +440,9 @@ def run_item(item):
 
 def replay(case):
     acc = Acc()
+    if case.get("layer") == "reuse":
+        run_reuse(acc, case["A"][0], case["kind"])
+        return acc
     if case.get("layer") == "tlc":
         with contextlib.redirect_stdout(io.StringIO()):
             run_tlc_item(acc, dict(layer="tlc", **case["constants"]))
